@@ -508,3 +508,4 @@ def run(ctx, res):
     rule_read_only(ctx, res, d)
     rule_garbage(ctx, res)
     rule_no_answer_arms(ctx, res, d)
+    common.rule_send_transmits(ctx, res)
